@@ -1874,6 +1874,18 @@ class Interp:
                 if self._res is not None:
                     self._res.calls.append((fake, list(cargs), r))
                 return r
+        if cb is None and key and f is not None and f.k == "fn" and prog is not None and "::" in key:
+            # a tuple-variant / tuple-struct CONSTRUCTOR passed as a value (`.map(CertificateKey::Generated)`, `.map(Some)`)
+            adt_, var_ = key.rsplit("::", 1)
+            try:
+                if adt_ in prog.adts and var_ in prog.adt_variants(adt_):
+                    return Val("adt", list(cargs), (adt_, var_))
+                if key in prog.adts and len(prog.adt(key)["variants"]) == 1:
+                    return Val("adt", list(cargs), (key, prog.adt(key)["variants"][0]["name"]))
+            except Exception:
+                pass
+            if key in ("core::option::Option::Some", "core::result::Result::Ok", "core::result::Result::Err"):
+                return Val("adt", list(cargs), (adt_, var_))
         if cb is None and key and f is not None and f.k == "fn":
             # a function item of another crate passed as a value (`map(Uid::from_raw)`): ask the rule's call model as if it were
             # called directly
@@ -2229,8 +2241,11 @@ def success_model(body, overrides=None, skip_unknown_loops=False):
         if cs.fn == "core::future::future::Future::poll":
             return Val("adt", [Val("adt", [Val("unknown", "ret:%s" % cs.res)], ("core::result::Result", "Ok"))], ("core::task::poll::Poll", "Ready")) \
                 if _dest_is(cs.body, cs, "Poll<core::result::Result<") else Val("adt", [Val("unknown", "ret:%s" % cs.res)], ("core::task::poll::Poll", "Ready"))
-        if cs.fn in ("core::result::Result::map_err", "core::result::Result::map") and args:
+        if cs.fn == "core::result::Result::map_err" and args:
             return args[0]
+        if cs.fn == "core::result::Result::map" and args:
+            a0_ = args[0].deref()
+            return Fallback(a0_.k, a0_.v, a0_.extra)           # used only when the mapping function cannot be evaluated
         if cs.fn in ("core::future::into_future::IntoFuture::into_future", "core::pin::Pin::new_unchecked") and args:
             return args[0]
         if skip_unknown_loops and cs.fn == "core::iter::traits::iterator::Iterator::next" and args and args[0].deref().k != "iter":
